@@ -146,9 +146,11 @@ def random_plan(seed, idx):
             b.sub(p, I0, r.choice([1, 2]), ttl)
         elif k < 0.92:
             b.call(r.choice(["stop_announce", "announce"]), [0])
-        elif k < 0.94:
-            b.call("conn_lost")
-        elif k < 0.97:
+        elif k < 0.93:
+            b.call("conn_lost", r.choice([[], ["u"], ["m"]]))
+        elif k < 0.955:
+            b.call("reject", [0, r.random() < 0.6])
+        elif k < 0.975:
             b.advance(0x1000000)
         else:
             b.call(r.choice(["ann_stop", "ann_start"]))
